@@ -443,10 +443,10 @@ func checkC20(run *mon.Run, rng *mon.Rand, thorough bool) {
 		run.Declare(cl, 10)
 	}
 	c := &c20{run: run, rng: rng, e: newL2Env(L2EnvOpts{CheckTx: false})}
-	c.feeFloor(pick(thorough, 4000, 500000))
+	c.feeFloor(pick(thorough, 4000, 1500000))
 	c.systemLane()
 	c.freeLane()
-	c.redundant(pick(thorough, 600, 40000))
+	c.redundant(pick(thorough, 600, 120000))
 	run.Sample(map[string]interface{}{"fee_case": "node=[0.15uinit] chain=[0.333333333333333333uinit,1uusdc] gas=7 fee=[3uinit] required={uinit:3,uusdc:7} mode=check -> admitted"})
 	run.Sample(map[string]interface{}{"lane_shape": "exec(exec(oracle)) -> not system"})
 }
